@@ -37,6 +37,8 @@ for id in "$@"; do
   if echo "$o" | grep -q "^VIOLATION property=$id"; then results="$results $id:caught"; else results="$results $id:missed"; fi
 done
 git checkout -- .
+# evidence and replay files written while the change was applied are not evidence of anything
+git -C /verif checkout -- evidence 2>/dev/null; rm -rf /verif/replays
 echo "RESULT $name:$results"
 mkdir -p "$dest"; cp "$out/patch.diff" "$dest/"; cp "$out"/*.rs "$dest/" 2>/dev/null; cp "$out/NOTES.md" "$dest/agent-notes.md" 2>/dev/null
 cat > "$dest/meta.json" <<EOM
